@@ -134,6 +134,32 @@ theorem fragmentation_independent (cfg : Cfg) (hdr s : List UInt8) (ds₁ ds₂ 
     run cfg hdr.length (hdr ++ s) ds₁ = run cfg hdr.length (hdr ++ s) ds₂ := by
   rw [run_eq_runWhole, run_eq_runWhole]
 
+/-- **Fragmentations stated explicitly.**  A fragmentation is a list of read results (chunks,
+empty ones allowed) whose concatenation is header + stream, followed by EOF.  `Cb.ofChunks` is the
+callback that returns exactly these results (`chunk_read_results`), and any two fragmentations of
+the same stream make the reader produce the same items and the same final result. -/
+theorem chunks_independent (cfg : Cfg) (hdr s : List UInt8) (cs₁ cs₂ : List (List UInt8))
+    (h₁ : cs₁.flatten = hdr ++ s) (h₂ : cs₂.flatten = hdr ++ s) :
+    runCb cfg hdr.length (Cb.ofChunks cs₁) = runCb cfg hdr.length (Cb.ofChunks cs₂) ∧
+    runCb cfg hdr.length (Cb.ofChunks cs₁) = runWhole cfg s := by
+  rw [runCb_eq_runWhole cfg hdr s _ h₁, runCb_eq_runWhole cfg hdr s _ h₂]
+  exact ⟨rfl, rfl⟩
+
+/-- The callback of `chunks_independent` hands out exactly the listed chunks — each one that fits
+into the buffer space it is offered, which the callback contract demands of every read result —
+and then reports EOF. -/
+theorem chunk_read_results (ch : List UInt8) (cs : List (List UInt8)) (space : Nat) :
+    (ch.length ≤ space → (Cb.ofChunks (ch :: cs)).read space = (some ch, Cb.ofChunks cs)) ∧
+    (Cb.ofChunks []).read space = (none, Cb.ofChunks []) :=
+  ⟨ofChunks_read_fits ch cs space, ofChunks_read_eof space⟩
+
+/-- **The public `Reader` of `file.rs`** (callback = `File::read`; `Ok(0)` is EOF, `Interrupted`
+is passed on as an empty read): whatever the operating system does — short reads of any size,
+interruptions at any point — the output is the reference output. -/
+theorem file_reader_eq_runWhole (cfg : Cfg) (hdr s : List UInt8) (evs : List OsRead) :
+    runFile cfg hdr.length (hdr ++ s) evs = runWhole cfg s :=
+  runCb_eq_runWhole cfg hdr s _ rfl
+
 -- non-vacuity: PLAYER_NEW 2; PLAYER_NEW 3; TICK_SKIP 0; PLAYER_DIFF 2; FINISH behind a 3-byte
 -- "header", read byte by byte / with empty reads / in one piece
 example :
@@ -255,5 +281,13 @@ example :
       [0x42, 0, 0xbf, 0xff, 0xff, 0xff, 0x0f, 0xff, 0xff, 0xff, 0xff, 0x0f, 0, 1, 0x40, 0x40]).items =
       [.playerNew 0 2147483647 (-2147483648), .playerChange 0 (-2147483648) 2147483647 2147483647 (-2147483648)] := by
   decide +kernel
+
+-- explicit chunks with empty ones, and the file reader with an interruption and short reads
+example :
+    runCb ⟨true, 1000⟩ 3 (Cb.ofChunks [[9], [], [9, 9, 0x42], [2, 0], [], [0, 0x40]]) =
+      ⟨[.tickStart 0, .playerNew 2 0 0, .tickEnd 0], .finished, 3⟩ := by decide +kernel
+example :
+    runFile ⟨true, 1000⟩ 3 [9, 9, 9, 0x42, 2, 0, 0, 0x40] [.data 1, .interrupted, .data 0, .interrupted, .data 100] =
+      ⟨[.tickStart 0, .playerNew 2 0 0, .tickEnd 0], .finished, 3⟩ := by decide +kernel
 
 end Tw.Props.C17
